@@ -403,14 +403,14 @@ theorem build_overlay_too_few {β : Type} (ops : Ops β) (s : Op β) :
 
 /-- nesting inside filters (and anything else) is an instance of the pipeline theorem -/
 theorem overlay_nested {β : Type} (ops : Ops β) (env : Nat → Outcome (Op β))
-    (henv : ∀ i o, env i = .ok o → Good o.src) (p : Pipe) (o : Op β) (h : build ops env p = .ok o) :
-    Good o.src := build_good ops env henv p o h
+    (henv : ∀ i o, env i = .ok o → Good o.src) (p : Pipe) (hd : p.DebugOK) (o : Op β) (h : build ops env p = .ok o) :
+    Good o.src := build_good ops env henv p hd o h
 
 /-! ### non-vacuity -/
 
 def demoA : Op Nat := ⟨Src.ofLookup (fun c => if c = (0, 0, 1) then .ok (some 10) else .ok none) Pyramid.newEmpty, 1, 1⟩
 def demoB : Op Nat := ⟨Src.ofLookup (fun c => if c.2.2 = 1 then .ok (some 20) else .ok none) Pyramid.newEmpty, 1, 2⟩
-def demoOps : Ops Nat := ⟨fun a b p => p * 100 + a * 10 + b, fun _ p => p, fun l => l.sum, fun _ p => p⟩
+def demoOps : Ops Nat := ⟨fun a b p => p * 100 + a * 10 + b, fun _ p => p, fun l => l.sum, fun _ p => p, fun _ c => c.1⟩
 
 example : firstHit demoOps 0 [demoA, demoB] (0, 0, 1) = some 1010 := by decide
 example : firstHit demoOps 0 [demoA, demoB] (1, 0, 1) = some 2020 := by decide
